@@ -59,6 +59,9 @@ CHECKS = {
  "C10": (FE, "exhaustive single-field (and version+length double) corruption and truncation of a valid instance of every message type, injected into the real controller I/O loop (OpenFlow_01_Task.run) and the real switch I/O loop (RecocoIOLoop.run), both driven by hand as generators with a hostile connection between two benign ones, under an execution budget",
          "For 36 valid message instances (all 22 types, stats variants, carriers with embedded messages): every header length 0..len+8, every type byte, version values, every embedded action/queue/stats length over a boundary set, every truncation point followed by EOF or by valid traffic, a bad version combined with an overstated length; placed first / before / between / after valid traffic, glued into one read or not. Oracle: the step terminates within the budget, the loop generator stays alive and keeps selecting on the siblings, siblings receive exactly their messages, on the hostile connection every delivered message is a unit of the reference framing (never built from two messages or from bytes inside another message), malformed units are answered with an error or the connection is closed, nothing is delivered after close.",
          "Reference framing and structural validator mc/refs/ofwire_c10.py; non-termination decided by a sys.monitoring line budget; fake socket / listener objects.", "DESIGN.md 4 C10"),
+ "C15": (FE, "exhaustive truncation and byte-corruption of a corpus of valid frames covering every parser path, each mutant parsed directly and through a PacketIn event, walked, packed, printed and dumped under a non-termination budget",
+         "For 73 corpus frames (mc/refs/pktcorpus.py): every truncation length; every byte position x {0x00, 0xff, b^1, b^0x80, b+1} (quick) / all 255 alternatives for the first 64 bytes (thorough); truncation x corruption of every position below the cut (thorough); checksum-repaired variants for ICMPv6. Oracle: ethernet(raw=...) and PacketIn.parsed return; walking .next terminates in bytes/None; a layer that failed has parsed == False and kept its raw input; pack(), str(), dump() return. Violations are keyed by phase and raising site, so a new site is a new violation.",
+         "Backward-jump budget via sys.monitoring decides non-termination; corpus built without importing pox.", "DESIGN.md 4 C15"),
 }
 
 PENDING_REASON = "check under construction in this round (design in DESIGN.md section 4); not claimed until its harness is committed and silent on the unchanged tree"
